@@ -890,6 +890,88 @@ def r08_11(prog, rep, rid="R08.11"):
         rep.ok(rid, key, f.loc(), "%d instants (timed and all-day) are armed for their own second" % len(cases))
 
 
+def _walk_fn(prog, g, args, depth=0):
+    """Value of g(args) by a value-fixed walk of g: an argument is a number or, for an instant passed by value, a dict of its members;
+    constant tables of g's unit are in the store, calls of other functions of the unit are walked the same way.  None when the paths
+    do not agree on one result."""
+    from ..absw import AbsWalk, eval_in
+    if depth > 4 or not g.cfg or len(args) != len(g.params):
+        return None
+    cfg = g.cfg
+    init = {}
+    for p_, a in zip(g.params, args):
+        if isinstance(a, dict):
+            init.update({"%s.%s" % (p_["n"], k_): v_ for k_, v_ in a.items()})
+        else:
+            init[p_["n"]] = a
+    for name, tl in prog.tables.items():
+        for t in tl:
+            if t["file"] == g.file:
+                vals = table_py(t)
+                if isinstance(vals, list) and all(isinstance(v_, int) for v_ in vals):
+                    init.update({"%s[%d]" % (name, k_): v_ for k_, v_ in enumerate(vals)})
+    FL = ("y", "m", "d", "H", "M", "S", "ms")
+
+    def call_eval(c, store):
+        nm = c.get("fn")
+        if not nm or not prog.has_fn(nm, g.file):
+            return None
+        h = prog.fn(nm, g.file)
+        av = []
+        for a in c.get("a", []):
+            a_ = strip_casts(cfg.resolve(a))
+            v = eval_in(store, a_, g, call_eval)
+            if v is None and a_.get("k") in ("ref", "mem"):
+                v = {k_: store.get("%s.%s" % (lv(a_), k_)) for k_ in FL}
+                if None in v.values():
+                    return None
+            if v is None:
+                return None
+            av.append(v)
+        return _walk_fn(prog, h, av, depth + 1)
+    outs = []
+
+    def effect(b, i, x, store):
+        if isinstance(x, dict) and x.get("k") == "ret" and x.get("e") is not None:
+            e = strip_casts(cfg.resolve(x["e"]))
+            if e.get("k") == "init" and e.get("fs"):
+                e = e["fs"][0][1]
+            outs.append(eval_in(store, e, g, call_eval))
+        return None
+    AbsWalk(g, {l_["n"] for l_ in g.locals}, init=init, effect=effect, call_eval=call_eval, max_states=20000).run()
+    if len(set(outs)) != 1:
+        return None
+    return outs[0]
+
+
+def r08_12(prog, rep, rid="R08.12"):
+    """The difference of two instants in milliseconds: echs_instant_diff() and the helpers it counts days with are walked for pairs of
+    instants — the same year on both sides of a leap day, across year ends, decades apart, reversed, with every borrow of the time of
+    day — and compared with the calendar; each difference added back to its start must give the end (R08.9 decides the addition)."""
+    f = prog.fn("echs_instant_diff", "instant.c")
+    pts = [(1901, 1, 1, 0, 0, 0, 0), (1904, 2, 28, 23, 59, 59, 999), (1904, 3, 1, 0, 0, 0, 0), (1999, 12, 31, 23, 59, 59, 0), (2000, 1, 1, 0, 0, 0, 0),
+           (2000, 2, 29, 12, 0, 0, 0), (2000, 3, 1, 12, 0, 0, 0), (2024, 2, 20, 10, 0, 0, 0), (2024, 3, 2, 10, 0, 0, 0), (2024, 12, 31, 0, 0, 0, 1),
+           (2025, 1, 1, 6, 30, 15, 500), (2025, 2, 28, 6, 30, 15, 499), (2025, 3, 1, 18, 0, 0, 0), (2099, 12, 31, 23, 59, 59, 999)]
+    n = 0
+    bad = []
+    for a in pts:
+        for b in pts:
+            ta = datetime.datetime(*a[:6], a[6] * 1000)
+            tb = datetime.datetime(*b[:6], b[6] * 1000)
+            want = (ta - tb) // datetime.timedelta(milliseconds=1)
+            got = _walk_fn(prog, f, [dict(zip(("y", "m", "d", "H", "M", "S", "ms"), a)), dict(zip(("y", "m", "d", "H", "M", "S", "ms"), b))])
+            n += 1
+            if got != want:
+                bad.append(("%04d-%02d-%02dT%02d:%02d:%02d.%03d" % a, "%04d-%02d-%02dT%02d:%02d:%02d.%03d" % b, got, want))
+    key = "echs_instant_diff/agrees-with-the-calendar"
+    if bad:
+        rep.fail(rid, key, f.loc(), "%d of %d differences come out wrong, e.g. %s" % (len(bad), n, "; ".join(
+            "%s - %s gives %s ms instead of %d (%s day(s) off)" % (b_[0], b_[1], b_[2], b_[3], "?" if b_[2] is None else (b_[2] - b_[3]) // 86400000) for b_ in bad[:3])),
+            {"examples": [list(b_) for b_ in bad[:20]]})
+    else:
+        rep.ok(rid, key, f.loc(), "%d differences (14 instants, every ordered pair) agree with the calendar" % n)
+
+
 def run(prog, rep, tier, snap):
     rep.rule("R08.1", "64-bit evaluation of millisecond quantities", 6)
     rep.call(r08_1, prog, rep)
@@ -912,6 +994,8 @@ def run(prog, rep, tier, snap):
     rep.call(r08_9, prog, rep)
     rep.rule("R08.10", "the library's instant -> unix time conversion over 1901..2099, both sides of 1970 and 2038 (value-fixed walk)", 2)
     rep.call(r08_10, prog, rep)
+    rep.rule("R08.12", "echs_instant_diff() agrees with the calendar on both sides of leap days and year ends (value-fixed walk)", 1)
+    rep.call(r08_12, prog, rep)
     rep.rule("R08.11", "the daemon's wake-up time of an instant agrees with the calendar, all-day instants at the start of their day (value-fixed walk)", 1)
     rep.call(r08_11, prog, rep)
 READY = True
